@@ -204,7 +204,9 @@ def run(ctx):
         rep = json.load(open(ctx.replay))["replay"]
         if rep.get("text") is not None:
             items = [("replay", None, rep["text"])]
-    outs = S.run_pipeline(ctx, [{"Text": t, "ParseOnly": True, "WriteBack": True} for k, s, t in items])
+    n_tmpl = 8 if ctx.tier == "quick" else 80
+    outs = S.run_pipeline(ctx, [{"Text": t, "ParseOnly": True, "WriteBack": True, "Templates": k == "layout" and j % 4 == 0 and j < 4 * n_tmpl}
+                                for j, (k, s, t) in enumerate(items)])
     ctx.log("read %d definition texts with the implementation (%d layouts of %d structures, %d single-fault corruptions)" % (
         len(items), len(valid), n_struct, sum(1 for k, s, t in items if k.startswith("fault"))))
     concrete = 0
@@ -240,6 +242,17 @@ def run(ctx):
             corr = ("reader model and implementation differ: " + mism[0][1][:300], items[mism[0][0]][2])
         else:
             validated = n
+    if res["stage"] != "translate":
+        triples = [("tmpl_definition", o["DefData"], o["DefText"]) for o in outs if o.get("DefData") and o.get("DefText")]
+        ng, mg = S.stageG(ctx, triples)
+        ctx.log("stage G: %d definition texts rendered by the Coq model of text/template from the translated template, %s" % (
+            ng, "identical to what Go wrote" if mg == [] else ("BROKEN" if mg is None else "%d differ" % len(mg))))
+        if mg is None:
+            corr = corr or ("stage G case file did not compile", None)
+        elif mg:
+            corr = corr or ("the translated definition template rendered by the model differs from the written text: " + mg[0][1][:200], None)
+        else:
+            validated += ng
     if corr and concrete == 0:
         ctx.violation("correspondence between the Coq reader model and the implementation no longer holds (%s)" % corr[0],
                       {"correspondence": corr[0], "text": corr[1], "searched": "%d texts through the field-by-field and round-trip oracles, none fails" % len(items)}, no_input=True)
